@@ -22,10 +22,10 @@ var FaultOps = []string{
 
 var badDates = []string{"2020-13-01", "2020-00-10", "2020-01-32", "2020-01-00", "2020-02-30", "1900-02-29", "2023-02-29", "2100-02-29",
 	"2021-04-31", "20-01-01", "2020-1-1", "2020-01-1", "02020-01-01", "2020-01/01", "2020/01-01", "2020.01.01", "2020-01-01x",
-	"x2020-01-01", "2020_01_01", "2020-01-011", "01-01-2020", "2020-0a-01", "٢٠٢٠-01-01", "2020–01–01", "2020-01", "20200101"}
+	"x2020-01-01", "2020_01_01", "2020-01-011", "01-01-2020", "2020-0a-01", "٢٠٢٠-01-01", "2020–01–01", "2020-01", "20200101", "+020-01-01", "2020-+1-01", "2020-01-+1", "-020-01-01", "2020--1-01"}
 var badShoulds = []string{"(8h)", "(8h!", "8h!)", "(!)", "()", "(foo!)", "(8h!!)", "(8:00!)", "(1h60m!)", "(8h!) (8h!)", "(8h!)x", "[8h!]", "(8h! foo)", "(8 h!)"}
-var badTimes = []string{"25:00", "8:60", "24:01", "24:00>", "<8:00>", "0:30am", "13:00pm", "8:5", "8.00", "8:000", ":30", "8:", "123:00", "00:00am", "8:00AM", "8:00a", ">8:00", "8:00<", "8h00", "٨:00"}
-var badDurations = []string{"1h60m", "1m1h", "h", "m", "1.5h", "--1h", "+-1h", "1hm", "1h1h", "5", "1H", "1h30", "-", "+", "1h-30m", "1m30m", "１h", "1h61m", "0h60m", "1,5h"}
+var badTimes = []string{"25:00", "8:60", "24:01", "24:00>", "<8:00>", "0:30am", "13:00pm", "8:5", "8.00", "8:000", ":30", "8:", "123:00", "00:00am", "8:00AM", "8:00a", ">8:00", "8:00<", "8h00", "٨:00", "+8:00", "8:+5", "-0:30", "8:-5", "+8:30am", "1:+0pm", "-08:00"}
+var badDurations = []string{"1h60m", "1m1h", "h", "m", "1.5h", "--1h", "+-1h", "1hm", "1h1h", "5", "1H", "1h30", "-", "+", "1h-30m", "1m30m", "１h", "1h61m", "0h60m", "1,5h", "1h+30m", "+1h+5m", "1h+5m"}
 var reversedRanges = []string{"9:00 - 8:00", "9:00-8:59", "1:00> - 0:00", "0:00 - <23:00", "12:00pm - 12:00am", "24:00 - 23:59", "0:01 - <24:00", "0:00> - 23:59"}
 var leadingBlanks = []string{" ", " ", "　", " "}
 
